@@ -161,6 +161,35 @@ pub fn judge(c: &Case, st: &mut Stats) -> Verdict {
             o => return fail("From<(mixed SocketAddr pair)>", "Unknown / Unspecified".into(), format!("{:?}", o)),
         }
     }
+    // v1::Header::new takes anything that converts into Addresses: the header keeps the text as given and the converted
+    // value unchanged, whatever the text says
+    let canon4 = format!("PROXY TCP4 {} {} {} {}\r\n", sa4, da4, sp, dp);
+    for text in ["PROXY UNKNOWN\r\n", canon4.as_str(), "", "PROXY TCP6 ::1 ::2 1 2\r\n"] {
+        let h = v1::Header::new(text, v1::IPv4::new(sa4, da4, sp, dp));
+        match h.addresses {
+            v1::Addresses::Tcp4(x) if ok4(&x) && h.header == text => {}
+            o => return fail("v1::Header::new(text, IPv4)", format!("{} with header text {:?}", format!("src {}:{} dst {}:{}", sa4, sp, da4, dp), text), format!("{:?} / {:?}", o, h.header)),
+        }
+        let h = v1::Header::new(text, v1::IPv6::new(sa6, da6, sp, dp));
+        match h.addresses {
+            v1::Addresses::Tcp6(x) if ok6(&x) && h.header == text => {}
+            o => return fail("v1::Header::new(text, IPv6)", format!("src [{}]:{} dst [{}]:{}", sa6, sp, da6, dp), format!("{:?} / {:?}", o, h.header)),
+        }
+        let h = v1::Header::new(text, (s4, d4));
+        match h.addresses {
+            v1::Addresses::Tcp4(x) if ok4(&x) && h.header == text => {}
+            o => return fail("v1::Header::new(text, (SocketAddr, SocketAddr))", format!("Tcp4 src {}:{} dst {}:{}", sa4, sp, da4, dp), format!("{:?} / {:?}", o, h.header)),
+        }
+        let h = v1::Header::new(text, (s6, d6));
+        match h.addresses {
+            v1::Addresses::Tcp6(x) if ok6(&x) && h.header == text => {}
+            o => return fail("v1::Header::new(text, (SocketAddr, SocketAddr))", format!("Tcp6 src [{}]:{} dst [{}]:{}", sa6, sp, da6, dp), format!("{:?} / {:?}", o, h.header)),
+        }
+        let h = v1::Header::new(text, v1::Addresses::Unknown);
+        if h.addresses != v1::Addresses::Unknown || h.header != text {
+            return fail("v1::Header::new(text, Unknown)", "Unknown".into(), format!("{:?}", h.addresses));
+        }
+    }
     st.class("socket-pairs");
     Ok(())
 }
